@@ -158,6 +158,31 @@ func catalogue() []catEntry {
 			setCommit(blk, freshCommit(blk.LastCommit.BlockID, pcs))
 			return true
 		}},
+		{name: "last-commit-one-validator-in-every-slot", minHeight: 2, apply: func(b *byzActor, blk *types.Block, rs *cstypes.RoundState) bool {
+			// the proposer's own correctly signed precommit for the previous block,
+			// replicated into every slot (the index is outside the sign bytes): one
+			// validator's power, whatever the slots say
+			idx, _ := rs.LastValidators.GetByAddress(b.n.key.Address())
+			if idx < 0 || blk.LastCommit == nil || len(blk.LastCommit.Precommits) < 2 {
+				return false
+			}
+			first := blk.LastCommit.FirstPrecommit()
+			if first == nil {
+				return false
+			}
+			own := b.signVote(blk.Height-1, first.Round, types.VoteTypePrecommit, blk.LastCommit.BlockID, rs.LastValidators.Size(), idx)
+			if own == nil {
+				return false
+			}
+			pcs := make([]*types.Vote, len(blk.LastCommit.Precommits))
+			for i := range pcs {
+				cp := *own
+				cp.ValidatorIndex = i
+				pcs[i] = &cp
+			}
+			setCommit(blk, freshCommit(blk.LastCommit.BlockID, pcs))
+			return true
+		}},
 		{name: "last-commit-all-nil", minHeight: 2, apply: func(b *byzActor, blk *types.Block, rs *cstypes.RoundState) bool {
 			pcs := make([]*types.Vote, len(blk.LastCommit.Precommits))
 			setCommit(blk, freshCommit(blk.LastCommit.BlockID, pcs))
